@@ -38,7 +38,7 @@ def shards(tier, seed):
 
 def floors(tier):
     f = {"pairs:equal_state_diff_presentation": 1000, "pairs:sign_only": 1000, "fidelity:calls": 30000,
-         "eq:calls": 10000, "canonical:calls": 10000, "infidelity:calls": 3000, "pairs:nonzero_signs": 10000}
+         "eq:calls": 10000, "canonical:calls": 10000, "infidelity:calls": 3000, "pairs:nonzero_signs": 10000, "pairs:low_sign_presentations": 500}
     for v in ("0", "0.125", "0.25", "0.5", "1"):
         f["overlap3:" + v] = 1
     return f
@@ -95,6 +95,9 @@ def run_shard(spec, ctx):
                 b = pauli.scramble_generators(rng, a)
             else:
                 b = pauli.random_stabilizer_group(rng, n)
+            if k % 4 == 1:
+                a, b = stab.low_sign_presentation(rng, a), stab.low_sign_presentation(rng, b)
+                ctx.count("pairs:low_sign_presentations")
             ref = pauli.overlap_sq(a, b)
             if n <= 6 and k % 5 == 0:
                 d = abs(np.vdot(dense.state_of_group(a), dense.state_of_group(b))) ** 2
